@@ -33,6 +33,14 @@ func VerifC17_sequential() {
 	if vfTier() == 1 {
 		K = 3
 	}
+	// overwriting a built-in may be the very first thing the process does with the registry
+	var early Decoration
+	earlyName := ""
+	if vfChoice("early-overwrite", 2) == 1 {
+		early = vfDeco('%')
+		earlyName = vfBuiltinNames[vfChoice("early-name", len(vfBuiltinNames))]
+		RegisterDecorationName(earlyName, early)
+	}
 	n := vfChoice("n", K+1)
 	var names []string
 	var decos []Decoration
@@ -56,6 +64,9 @@ func VerifC17_sequential() {
 	// built-ins stay reachable and unknown long names are empty
 	for _, b := range vfBuiltinNames {
 		vfAssert(Named(b) != EmptyDecoration, "built-ins-registered")
+		if b == earlyName {
+			vfAssert(Named(b) == early, "overwrite-takes-effect")
+		}
 	}
 	vfAssert(Named("no such decoration") == EmptyDecoration, "unknown-name-is-empty")
 	vfCheckListing(RegisteredDecorationNames(), names)
